@@ -32,6 +32,7 @@ THEOREMS = [
     "O2P.Gate.or_test_spec",
     "O2P.Gate.or_inference_leaves_sound",
     "O2P.Gate.post_flat_or_sound",
+    "O2P.Gate.post_flat_or_sound_proj",
 ]
 
 
@@ -124,7 +125,8 @@ def post_part(ctx: Ctx, items: list[dict[str, Any]], seeds: list[int]) -> None:
             it = items[rq["base"] + k]
             if "error" in res:
                 continue    # reported by the main part
-            lreqs.append({"op": "gate.post", "sets": it["family"], "raw": res["raw"], "src": it["tree"]})
+            lreqs.append({"op": "gate.post", "sets": it["family"], "raw": res["raw"],
+                          **({"src": it["tree"]} if it.get("tree") is not None else {})})
             lmeta.append((it, res, rq["hash_seed"]))
     lres = pvlib.lean(lreqs, timeout=3600) if lreqs else []
     for (it, res, hs), lr in zip(lmeta, lres):
@@ -144,19 +146,19 @@ def post_part(ctx: Ctx, items: list[dict[str, Any]], seeds: list[int]) -> None:
         for o, vd in zip(lr["outcomes"], lr.get("verdicts", [])):
             if "error" in vd:
                 continue
-            if not vd["sound"] or (it["subclass"] and not vd["exact"]):
+            if not vd["sound"] or (it.get("subclass") and not vd["exact"]):
                 ctx.violation(f"another choice of max() in get_weighted_cover gives {o}, which "
                               f"{'does not admit every observed set' if not vd['sound'] else 'admits more than the source'} "
-                              f"of {it['tree']} (raw miner tree {res['raw']})",
-                              {"input": {"tree": it["tree"], "family": it["family"], "hash_seed": hs}, "raw": res["raw"],
-                               "outcome": o}, key=("postchoice", it["tree"]))
+                              f"of {it.get('tree') or it['family']} (raw miner tree {res['raw']})",
+                              {"input": {"tree": it.get("tree"), "family": it["family"], "hash_seed": hs},
+                               "raw": res["raw"], "outcome": o}, key=("postchoice", it.get("tree") or it["family"]))
                 break
         if canon(res["final"]) not in [canon(o) for o in lr["outcomes"]]:
             ctx.violation("correspondence: the post-processing of the real raw miner tree is not an outcome of the Lean "
                           "model (inferOrAll, filterDefunct, missingAnd)",
-                          {"input": {"tree": it["tree"], "family": it["family"], "hash_seed": hs}, "raw": res["raw"],
+                          {"input": {"tree": it.get("tree"), "family": it["family"], "hash_seed": hs}, "raw": res["raw"],
                            "impl": res["final"], "model": lr["outcomes"][:4]},
-                          key=("corrpost", it["tree"], hs), concrete=False)
+                          key=("corrpost", it.get("tree") or it["family"], hs), concrete=False)
 
 
 def cover_part(ctx: Ctx, quick: bool) -> None:
@@ -256,6 +258,71 @@ def cover_part(ctx: Ctx, quick: bool) -> None:
         k += 1
 
 
+# observed families on which the unrepaired code failed (each repaired by a "fix:" commit; they run first, always)
+REPAIRED_INPUTS = [
+    # c6e9ec1: a nested parallel child of a parallel node was dropped by the OR inference (four of five events lost)
+    [["a", "b", "c"], ["c", "d", "e"], ["a", "e"]],
+    # dcf1496: AND recovery below a nested OR gate ignored the observed sets reaching outside the gate
+    [["b", "c"], ["b", "c", "d"], ["d"], ["a"], ["a", "e"], ["e"], ["a", "c", "d"]],
+    # a5c0cb4: stale parent pointer of a re-parented parallel child made the defunct-OR filter raise ValueError
+    [["a", "b", "c", "d"], ["b", "c", "f"], ["b", "d", "e", "f"]],
+    [["a", "b", "f"], ["a", "c", "d", "f"], ["b", "c", "e", "f"]],
+]
+
+
+def observed_part(ctx: Ctx, quick: bool, domain_items: list[dict[str, Any]], seeds: list[int]) -> None:
+    """the first sentence of the property on families that are NOT the full outcome family of a tree: seeded random
+    families of observed sets and seeded parts of the domain's families (what a finite log shows of a gate tree).  The
+    real calculate_logic_gates must return a gate tree that admits every observed set (judged in Lean); the
+    repository's post-processing of the real raw tree must be an outcome of the Lean model, and every outcome of the
+    model (every choice of max) must admit every observed set too."""
+    r = ctx.rng
+    fams: list[list[list[str]]] = [list(f) for f in REPAIRED_INPUTS]
+    for _ in range(700 if quick else 9000):
+        n = r.choice([3, 4, 5, 5, 6])
+        uni = list("abcdef"[:n])
+        k = r.choice([2, 3, 3, 4, 5, 7])
+        sets = {tuple(sorted(r.sample(uni, r.randrange(1, n + 1)))) for _ in range(k)}
+        fams.append([list(x) for x in sorted(sets)])
+    ctx.tick("observed_random_families", len(fams) - len(REPAIRED_INPUTS))
+    pool = [it for it in domain_items if len(it["family"]) >= 3]
+    for _ in range(500 if quick else 6000):
+        it = r.choice(pool)
+        k = r.randrange(2, len(it["family"]))
+        fams.append(sorted(r.sample(it["family"], k)))
+        ctx.tick("observed_partial_families")
+    items = [{"family": f} for f in fams]
+    post_part(ctx, items, seeds)
+    B = 40
+    reqs = [{"op": "gates", "families": fams[i:i + B], "hash_seed": hs, "uuid_seed": ctx.seed + i, "timeout": 300,
+             "base": i} for hs in seeds for i in range(0, len(fams), B)]
+    jreqs, jmeta = [], []
+    for rq, rp in zip(reqs, pvlib.run_requests(reqs)):
+        if "error" in rp:
+            ctx.broken_ties.append(f"worker failed on a batch: {rp['error'][:120]}")
+            continue
+        for k, res in enumerate(rp["results"]):
+            fam = fams[rq["base"] + k]
+            inp = {"family": fam, "hash_seed": rq["hash_seed"]}
+            if rq["hash_seed"] == seeds[0]:
+                ctx.case(fam, len(fam) >= 3)
+            if "error" in res or res.get("tree") is None:
+                ctx.violation(f"calculate_logic_gates raised {res.get('error')} on the observed sets {fam}",
+                              {"input": inp}, key=("observed", fam))
+                continue
+            jreqs.append({"op": "gate.admits", "sets": fam, "inferred": res["tree"]})
+            jmeta.append((inp, res["tree"]))
+    for (inp, tree), jr in zip(jmeta, pvlib.lean(jreqs, timeout=3600) if jreqs else []):
+        if ctx.too_many():
+            break
+        if "error" in jr:
+            ctx.violation(f"the returned tree uses something that is not an AND/OR/XOR gate over events ({jr['error']}): "
+                          f"{tree}", {"input": inp, "inferred": tree}, key=("observed", inp["family"]))
+        elif jr["missing"]:
+            ctx.violation(f"the inferred tree {tree} does not admit the observed sets {jr['missing'][:3]}",
+                          {"input": inp, "inferred": tree, "missing": jr["missing"]}, key=("observed", inp["family"]))
+
+
 def run(ctx: Ctx) -> None:
     ctx.prove(["O2P.Props.C06"], THEOREMS)
     if ctx.tier == "thorough":
@@ -310,6 +377,7 @@ def run(ctx: Ctx) -> None:
         f"on the full outcome family of each, under interpreter hash seeds {seeds}. non-trivial: depth >= 2"
     )
     post_part(ctx, items[:items_plain], seeds)
+    observed_part(ctx, quick, items[:items_plain], seeds)
     # batches per hash seed
     reqs, meta = [], []
     B = 40
@@ -396,6 +464,19 @@ def replay(data: dict[str, Any]) -> int:
     print("inferred:", res)
     if "tree" not in res or res["tree"] is None:
         return 1
+    if inp.get("tree") is None:     # observed sets without a source tree: soundness alone
+        jr = pvlib.lean([{"op": "gate.admits", "sets": inp["family"], "inferred": res["tree"]}])[0]
+        print(jr)
+        if "error" in jr or jr["missing"]:
+            return 1
+        rr = pvlib.run_requests([{"op": "gates_raw", "families": [inp["family"]],
+                                  "hash_seed": inp.get("hash_seed", 0)}])[0]["results"][0]
+        if "raw" in rr:
+            lr = pvlib.lean([{"op": "gate.post", "sets": inp["family"], "raw": rr["raw"]}])[0]
+            print("model outcomes:", lr)
+            if any(not v.get("sound") for v in lr.get("verdicts", [])):
+                return 1
+        return 0
     jr = pvlib.lean([{"op": "gate.judge", "src": inp["tree"], "inferred": res["tree"]}])[0]
     print(jr)
     ok = jr.get("sound") and (jr.get("exact") or not jr.get("subclass"))
